@@ -253,7 +253,9 @@ func (c *CheckRun) runFallback() {
 		if n > 64 {
 			break
 		}
-		for _, vals := range inst.fallbackVectors(c.P, c.Cfg.Solvers[0], c.Cfg.Timeout, c.Cfg.Seed, c.Stats[c.Cfg.Solvers[0]], perPath) {
+		base := inst.fallbackVectors(c.P, c.Cfg.Solvers[0], c.Cfg.Timeout, c.Cfg.Seed, c.Stats[c.Cfg.Solvers[0]], perPath)
+		base = append(base, readerScripts(inst, base)...)
+		for _, vals := range base {
 			all := append([]map[string]interface{}{vals}, spellingVariants(vals)...)
 			for _, v := range all {
 				vecs = append(vecs, &Vector{Harness: inst.Harness, Args: inst.Args, Vals: v, Property: c.Spec.ID, Kind: "fallback-witness"})
@@ -310,4 +312,53 @@ func (c *CheckRun) runFallback() {
 		}
 	}
 	c.Extra["fallback_violations"] = nviol
+}
+
+
+// readerScripts: when the ordinary exploration met the nondeterministic reader (inputs k<i>, kind<i>)
+// but the reference-side re-execution cannot (the implementation is stubbed there), its behaviour
+// is enumerated directly over the property's own quantifier: every failure point, every failure
+// kind, with or without bytes alongside the error, one or two fragments before it.
+func readerScripts(inst *Instance, base []map[string]interface{}) []map[string]interface{} {
+	if inst.SeenInputs["k0"] != "int" {
+		return nil
+	}
+	var proto map[string]interface{}
+	if len(base) > 0 {
+		proto = base[len(base)-1]
+	} else {
+		proto = map[string]interface{}{"goldenlang": inst.Lang}
+	}
+	mk := func(ks, kinds []int) map[string]interface{} {
+		m := map[string]interface{}{}
+		for k, v := range proto {
+			m[k] = v
+		}
+		for i := range ks {
+			m[fmt.Sprintf("k%d", i)] = int64(ks[i])
+			m[fmt.Sprintf("kind%d", i)] = int64(kinds[i])
+		}
+		if _, ok := m["s"]; !ok {
+			bs := make([]int, 40)
+			for i := range bs {
+				bs[i] = (i*37 + 11) % 256
+			}
+			m["s"] = bs
+		}
+		return m
+	}
+	var out []map[string]interface{}
+	for total := 0; total <= 36; total++ {
+		for kind := 0; kind <= 4; kind++ {
+			// everything in one read, outcome `kind`; a clean short read is followed by EOF / an error
+			out = append(out, mk([]int{total, 0, 0, 0}, []int{kind, 1, 1, 1}))
+			out = append(out, mk([]int{total, 0, 0, 0}, []int{kind, 3, 3, 3}))
+			for _, first := range []int{1, 5, 16} {
+				if first < total {
+					out = append(out, mk([]int{first, total - first, 0, 0}, []int{0, kind, 1, 1}))
+				}
+			}
+		}
+	}
+	return out
 }
